@@ -17,22 +17,28 @@
     * percent / money / unit printing wrap `formatNumber` with the kind's digits and symbol
 -/
 import SC.Format
+import SCP.Lemmas.C07
 namespace SCP.C07
 open SC
+open SCP.Lemmas.C07
 
 /-! ### digits -/
 
-theorem digitOf_radixDigit (d : Nat) (h : d < 16) : digitOf (radixDigit d) = d := by sorry
+theorem digitOf_radixDigit (d : Nat) (h : d < 16) : digitOf (radixDigit d) = d :=
+  digitOf_radixDigit' d h
 
 theorem radixValue_append (b : Nat) (xs : List Char) (c : Char) :
-    radixValue b (xs ++ [c]) = radixValue b xs * b + digitOf c := by sorry
+    radixValue b (xs ++ [c]) = radixValue b xs * b + digitOf c :=
+  radixValue_append' b xs c
 
 /-- a number reads back from its digits, for every base 2..16 and every n -/
 theorem radixValue_radixDigits (b n : Nat) (hb : 2 ≤ b) (hb' : b ≤ 16) :
-    radixValue b (radixDigits b n) = n := by sorry
+    radixValue b (radixDigits b n) = n :=
+  radixValue_radixDigits' b n hb hb'
 
 /-- `radixDigits` never produces an empty string and has no leading zero (except "0") -/
-theorem radixDigits_ne_nil (b n : Nat) : radixDigits b n ≠ [] := by sorry
+theorem radixDigits_ne_nil (b n : Nat) : radixDigits b n ≠ [] :=
+  radixDigits_ne_nil' b n
 
 /-! ### rounding to N decimals -/
 
@@ -42,19 +48,26 @@ def roundQuot (scaled den : Nat) : Nat :=
   let r := scaled % den
   if 2 * r > den || (2 * r = den && q % 2 = 1) then q + 1 else q
 
+theorem roundQuot_eq_rq (scaled den : Nat) : roundQuot scaled den = rq scaled den := rfl
+
 /-- `roundQuot` is a nearest integer to scaled/den: the error is at most one half … -/
 theorem roundQuot_nearest (scaled den : Nat) (hd : 0 < den) :
-    2 * (roundQuot scaled den * den - scaled) ≤ den ∧ 2 * (scaled - roundQuot scaled den * den) ≤ den := by sorry
+    2 * (roundQuot scaled den * den - scaled) ≤ den ∧ 2 * (scaled - roundQuot scaled den * den) ≤ den := by
+  rw [roundQuot_eq_rq]; exact rq_nearest scaled den hd
 
 /-- … and an exact tie goes to the even neighbour -/
 theorem roundQuot_tie_even (scaled den : Nat) (hd : 0 < den) (htie : 2 * (scaled % den) = den) :
-    roundQuot scaled den % 2 = 0 := by sorry
+    roundQuot scaled den % 2 = 0 := by
+  have _ := hd
+  rw [roundQuot_eq_rq]; exact rq_tie_even scaled den htie
 
 /-- the digits `fixedParts` returns are those of the rounded quotient: integer part and exactly
     `n` fraction digits -/
 theorem fixedParts_value (num den n : Nat) (hn : 0 < n) :
     let p := fixedParts num den n
-    radixValue 10 p.1 * 10 ^ n + radixValue 10 p.2 = roundQuot (num * 10 ^ n) den ∧ p.2.length = n := by sorry
+    radixValue 10 p.1 * 10 ^ n + radixValue 10 p.2 = roundQuot (num * 10 ^ n) den ∧ p.2.length = n := by
+  intro p
+  rw [roundQuot_eq_rq]; exact fixedParts_value' num den n hn
 
 /-! ### grouping -/
 
@@ -64,10 +77,12 @@ def ungroup (sep : Char) (cs : List Char) : List Char := cs.filter (· ≠ sep)
 /-- removing the separator from the grouped digits gives the digits back (separator not a digit
     of the string) -/
 theorem group_ungroup (sep : Char) (ds : List Char) (h : sep ∉ ds) :
-    ungroup sep (groupThousands [sep] ds) = ds := by sorry
+    ungroup sep (groupThousands [sep] ds) = ds :=
+  filter_groupThousands sep ds h
 
 /-- an empty thousands separator leaves the digits unchanged -/
-theorem group_empty_sep (ds : List Char) : groupThousands [] ds = ds := by sorry
+theorem group_empty_sep (ds : List Char) : groupThousands [] ds = ds :=
+  groupThousands_nil_sep ds
 
 /-- shape: the grouped string is the digits cut into groups from the right — the first group
     has 1..3 digits, every further group exactly 3 — joined by the separator -/
@@ -81,10 +96,27 @@ where
     | a :: b :: c :: rest => [a, b, c] :: chunks3 rest
     | _ => []
 
-theorem group_shape (sep ds : List Char) :
-    groupThousands sep ds = List.intercalate sep (groupsFromRight ds) := by sorry
+theorem groupsFromRight_chunks3_eq (l : List Char) :
+    groupsFromRight.chunks3 l = SCP.Lemmas.C07.chunks3 l := by
+  fun_induction groupsFromRight.chunks3 l with
+  | case1 a b c rest ih => simp [SCP.Lemmas.C07.chunks3, ih]
+  | case2 l hne =>
+    unfold SCP.Lemmas.C07.chunks3
+    split
+    · rename_i a b c rest; exact absurd rfl (hne a b c rest)
+    · rfl
 
-theorem groupsFromRight_flatten (ds : List Char) : (groupsFromRight ds).flatten = ds := by sorry
+theorem groupsFromRight_eq_gfr (ds : List Char) : groupsFromRight ds = gfr ds := by
+  cases ds with
+  | nil => rfl
+  | cons c cs => simp [groupsFromRight, gfr, groupsFromRight_chunks3_eq]
+
+theorem group_shape (sep ds : List Char) :
+    groupThousands sep ds = List.intercalate sep (groupsFromRight ds) := by
+  rw [groupsFromRight_eq_gfr]; exact groupThousands_eq_intercalate sep ds
+
+theorem groupsFromRight_flatten (ds : List Char) : (groupsFromRight ds).flatten = ds := by
+  rw [groupsFromRight_eq_gfr]; exact gfr_flatten ds
 
 /-! ### the whole format -/
 
@@ -96,15 +128,24 @@ theorem format_shape {F : Type} [Num F] (x : F) (thou dec : String) (digits : Na
     formatNumber x thou dec digits removeZero rounding =
       String.ofList ((if Num.lt x (Num.ofInt 0) then ['-'] else []) ++
         groupThousands thou.toList (splitDot s).1 ++
-        (if (splitDot s).2.isEmpty || (removeZero && allZero (splitDot s).2) then [] else dec.toList ++ (splitDot s).2)) := by sorry
+        (if (splitDot s).2.isEmpty || (removeZero && allZero (splitDot s).2) then [] else dec.toList ++ (splitDot s).2)) := by
+  intro s
+  show String.ofList (_ ++ groupThousands thou.toList (splitDot s).1 ++
+      (if !(splitDot s).2.isEmpty && !(removeZero && allZero (splitDot s).2) then dec.toList ++ (splitDot s).2 else [])) = _
+  cases (splitDot s).2.isEmpty <;> cases removeZero <;> cases allZero (splitDot s).2 <;> rfl
 
 /-- `splitDot` splits `ip ++ '.' :: fp` back into its parts when `ip` has no '.' -/
-theorem splitDot_join (ip fp : List Char) (h : '.' ∉ ip) : splitDot (ip ++ '.' :: fp) = (ip, fp) := by sorry
+theorem splitDot_join (ip fp : List Char) (h : '.' ∉ ip) : splitDot (ip ++ '.' :: fp) = (ip, fp) := by
+  have hp : ∀ a ∈ ip, (decide (a ≠ '.')) = true := by
+    intro a ha; simp; intro e; exact h (e ▸ ha)
+  unfold splitDot
+  rw [List.takeWhile_append_of_pos hp, List.dropWhile_append_of_pos hp]
+  simp
 
 /-! non-vacuity: the classic boundary cases, over exact rationals -/
-example : formatNumber (199 / 200 : Rat) "." "," 2 true true = "1" := by sorry       -- 0.995 -> 1,00 -> "1"
-example : formatNumber (1234567 / 100 : Rat) "." "," 2 true true = "12.345,67" := by sorry
-example : formatNumber (-1 / 2 : Rat) "." "," 0 false true = "-0" := by sorry        -- tie to even
-example : formatNumber (5 / 2 : Rat) "." "," 0 false true = "2" := by sorry
+example : formatNumber (199 / 200 : Rat) "." "," 2 true true = "1" := by decide +kernel       -- 0.995 -> 1,00 -> "1"
+example : formatNumber (1234567 / 100 : Rat) "." "," 2 true true = "12.345,67" := by decide +kernel
+example : formatNumber (-1 / 2 : Rat) "." "," 0 false true = "-0" := by decide +kernel        -- tie to even
+example : formatNumber (5 / 2 : Rat) "." "," 0 false true = "2" := by decide +kernel
 
 end SCP.C07
